@@ -643,6 +643,34 @@ fn gen_computed(rng: &mut Rng, tier: Tier) -> Case {
         }
         case.pieces.push(Piece::gap(vec![b'\n']));
     }
+    // one scenario in five: integers beyond 2^53 that are neighbours of each other (integer
+    // tokens only, within 64 bits: what `=` says about them is asked, not assumed)
+    let bigs = rng.chance(1, 5);
+    if bigs {
+        let base: i128 = *rng.pick(&[1i128 << 53, (1i128 << 53) + 1024, 1i128 << 60, (1i128 << 63) - 9, 100_000_000_000_000_000, -(1i128 << 53) - 4, 1_234_567_890_123_456_789]);
+        case.pieces.clear();
+        let m = rng.range(3, 9);
+        for i in 0..m {
+            let x = Val::Int(base + rng.below(4) as i128);
+            let v = match rng.below(4) {
+                0 => x,
+                1 => Val::Obj(vec![("id".into(), Val::Int((i % 2) as i128)), ("n".into(), x)]),
+                2 => Val::Arr(vec![x, Val::Str("k".into())]),
+                _ => Val::Obj(vec![("n".into(), x), ("arr".into(), Val::Arr(vec![Val::Int(base + rng.below(3) as i128)]))]),
+            };
+            case.pieces.push(Piece::rec(spell(&v, rng, 0), i as u32));
+            case.pieces.push(Piece::gap(vec![b'\n']));
+        }
+        if rng.chance(1, 2) {
+            case.opts.push(vec!["--select".into(), format!("{}=a", rng.pick(&[".n", ".", ".arr", "#0", "(stringify .n)"]))]);
+        }
+        case.opts.push(vec!["--style=consise".into()]);
+        case.opts.push(vec!["--utf8-strings".into()]);
+        case.hash_seeds = (0..2).map(|_| rng.next_u64() >> 1).collect();
+        case.delivery = gen_delivery(rng, case.stream().len());
+        case.set("bigs", 1);
+        return case;
+    }
     let split = rng.chance(1, 4);
     if split {
         case.opts.push(vec!["--split-by=.arr".into()]);
